@@ -101,6 +101,11 @@ def mutate(draw: t.Any, v: t.Any, names: t.Sequence[str], depth: int = 0) -> t.A
     ops = ['replace', 'replace']
     if seq:
         ops += ['drop', 'dup', 'append', 'to_str', 'to_map', 'reshape']
+    twins: t.List[t.Tuple[str, str]] = []
+    if mp:
+        twins = [(k, alt) for k in v if isinstance(k, str) for g in getattr(names, 'groups', ()) if k in g for alt in g if alt != k and alt not in v]
+        if twins:
+            ops += ['dupfield', 'dupfield']
     if mp:
         ops += ['dropkey', 'addkey', 'addkey', 'renamekey', 'to_items', 'reshape', 'badkey', 'inserting-drop', 'respell-key']
     if isinstance(v, str):
@@ -155,6 +160,12 @@ def mutate(draw: t.Any, v: t.Any, names: t.Sequence[str], depth: int = 0) -> t.A
         if pairs:
             pairs.pop(draw(st.integers(0, len(pairs) - 1)))
         return collections.defaultdict(draw(st.sampled_from([int, list, str, dict])), pairs)
+    if op == 'dupfield':
+        # a second key naming a field that is already given (alias / renamed form / python name): on its own a duplicate-key error
+        (k, alt) = twins[draw(st.integers(0, len(twins) - 1))]
+        pairs = list(v.items())
+        pairs.insert(draw(st.integers(0, len(pairs))), (alt, v[k] if draw(st.booleans()) else draw(tg.scalars)))
+        return _rebuild_map(v, pairs)
     if op == 'respell-key':
         # a second key that is a different piece of data but (for parse-from-text key types) denotes the same typed key:
         # the two converted keys collide.  Which entry survives is unspecified; that conversion stays total and the two passes agree is not.
